@@ -166,15 +166,16 @@ def no_aslr_prefix() -> list[str]:
     if _NOASLR is None:
         import platform
         import shutil
-        _NOASLR = []
+        found = []
         exe = shutil.which('setarch')
         if exe:
             cmd = [exe, platform.machine(), '-R']
             try:
                 if subprocess.run(cmd + ['true'], capture_output=True, timeout=20).returncode == 0:
-                    _NOASLR = cmd
+                    found = cmd
             except Exception:  # noqa
                 pass
+        _NOASLR = found
     return _NOASLR
 
 
@@ -183,25 +184,31 @@ def run_jobs(jobs, order_seed=0, nproc=None, timeout=3000):
         return []
     nproc = min(nproc or (os.cpu_count() or 4), len(jobs))
     chunks = [jobs[i::nproc] for i in range(nproc)]
+    prefix = no_aslr_prefix()       # decided once, before the threads start
     env = dict(os.environ, PYTABLEAUX_VERIF='1', PYTABLEAUX_VERIF_ORDER=str(order_seed), PYTHONDONTWRITEBYTECODE='1',
                PYTHONHASHSEED='0')
 
     def work(chunk):
-        # jobs travel in a file, not a pipe: pipe reads come in timing-dependent pieces, which shifts heap addresses
-        # (and with them every id()-based hash) from run to run
+        # jobs and answers travel in files, not pipes: pipe reads/writes come in timing-dependent pieces, which shifts heap
+        # addresses (and with them every id()-based hash, i.e. the tie-breaks of the proof search) from run to run
         import tempfile
         with tempfile.NamedTemporaryFile('w', suffix='.jsonl', prefix='c19_', delete=False) as fh:
             fh.write('\n'.join(json.dumps(j) for j in chunk) + '\n')
             path = fh.name
+        opath = path[:-6] + '.out'
+        text = ''
         try:
-            p = subprocess.run(no_aslr_prefix() + [PY, '-m', WORKER, path], stdin=subprocess.DEVNULL,
+            p = subprocess.run(prefix + [PY, '-m', WORKER, path, opath], stdin=subprocess.DEVNULL,
                                capture_output=True, text=True, cwd=str(ROOT), env=env, timeout=timeout)
+            if os.path.exists(opath):
+                text = open(opath).read()
         finally:
-            try:
-                os.unlink(path)
-            except OSError:
-                pass
-        outs = [json.loads(l) for l in p.stdout.splitlines() if l.strip().startswith('{')]
+            for f in (path, opath):
+                try:
+                    os.unlink(f)
+                except OSError:
+                    pass
+        outs = [json.loads(l) for l in text.splitlines() if l.strip().startswith('{')]
         got = {o.get('id') for o in outs}
         for j in chunk:
             if j['id'] not in got:
@@ -446,6 +453,9 @@ def run(ctx: Ctx):
         reqs, back = [], []
         for gi, (j, o, sd) in enumerate(good):
             for notn, wopts, text in o['texts']:
+                if notn not in ('polish', 'standard'):
+                    corr['render_skipped_unknown_notation'] += 1
+                    continue
                 reqs.append(render_request(o['tree'], notn, wopts))
                 back.append((gi, 'render', notn, wopts, text))
             if o.get('read') is not None and o['texts']:
